@@ -400,4 +400,13 @@ def R11_cost_vectors_aligned(ctx):
     R5_weights(ctx)
 
 
-RULES = [R1_edge_step, R2_units, R3_one_slot, R4_turns, R5_summary, R6_edge_cost_formula, R7_reorient, R8_declared_features, R9_synthetic_destination_state, R10_spliced_route_states, R11_cost_vectors_aligned]
+def R12_query_overrides(ctx):
+    """a query may re-declare a feature (`state_features`): the route then starts from the declared initial value and is reported in
+    the declared unit only if the override reaches the state model as it was given — (name, feature) unchanged, through
+    StateModel::extend (shared with C11.R5 and C11.R7; round 6: a merge helper that kept the model's unit and the user's raw number)"""
+    from props.C11 import R5_overrides, R7_overrides_through_extend
+    R5_overrides(ctx)
+    R7_overrides_through_extend(ctx)
+
+
+RULES = [R1_edge_step, R2_units, R3_one_slot, R4_turns, R5_summary, R6_edge_cost_formula, R7_reorient, R8_declared_features, R9_synthetic_destination_state, R10_spliced_route_states, R11_cost_vectors_aligned, R12_query_overrides]
